@@ -44,6 +44,7 @@ partial def tmplOfJ : J → Option Tmpl
     let lo ← numOfJ lo
     let hi ← numOfJ hi
     pure (.floatv tag.toNat lo hi)
+  | .arr [.str "custom", .int tag, .int cid] => some (.custom tag.toNat cid.toNat)
   | _ => none
 
 partial def tmplToJ : Tmpl → J
@@ -54,6 +55,7 @@ partial def tmplToJ : Tmpl → J
   | .choice tag one k cands d s =>
     .arr [.str "choice", .int tag, .bool one, .int k, .arr (cands.map tmplToJ), .bool d, .bool s]
   | .floatv tag lo hi => .arr [.str "floatv", .int tag, numToJ lo, numToJ hi]
+  | .custom tag cid => .arr [.str "custom", .int tag, .int cid]
 
 partial def dnaOfJ : J → Option DNA
   | .arr [v, .arr cs] => do
@@ -61,6 +63,7 @@ partial def dnaOfJ : J → Option DNA
       | .null => some none
       | .arr [.str "i", .int i] => if i ≥ 0 then some (some (DVal.idx i.toNat)) else none
       | .arr [.str "f", .int m, .int e] => some (some (DVal.flt ⟨m, e.toNat⟩))
+      | .arr [.str "s", .str g] => some (some (DVal.str g))
       | _ => none
     let cs ← cs.mapM dnaOfJ
     -- the harness sends what `DNA(value, children)` holds: already normalised
@@ -72,13 +75,80 @@ partial def dnaToJ : DNA → J
     .arr [match v with
           | none => .null
           | some (.idx i) => .arr [.str "i", .int i]
-          | some (.flt x) => .arr [.str "f", .int x.m, .int x.e],
+          | some (.flt x) => .arr [.str "f", .int x.m, .int x.e]
+          | some (.str g) => .arr [.str "s", .str g],
           .arr (cs.map dnaToJ)]
 
 partial def specToJ : GSpec → J
   | .space es => .arr [.str "space", .arr (es.map specToJ)]
   | .choices k cs d s => .arr [.str "choices", .int k, .arr (cs.map specToJ), .bool d, .bool s]
   | .float lo hi => .arr [.str "float", numToJ lo, numToJ hi]
+  | .custom cid => .arr [.str "custom", .int cid]
+
+/-! ### The concrete user hooks the harness instantiates (mirrors of the Python classes in
+harness/c13.py `_setup_pg`; glue code, outside the proofs). -/
+
+def genomeOf : DNA → Option String
+  | .mk (some (.str g)) _ => some g
+  | _ => none
+
+def strDna (g : String) : DNA := .mk (some (.str g)) []
+
+partial def jToTmpl : J → Option Tmpl
+  | .null => some (.const .none)
+  | .int i => some (.const (.int i))
+  | .str s => some (.const (.str s))
+  | .arr xs => (xs.mapM jToTmpl).map (.node .list)
+  | .obj kvs => (kvs.mapM (fun kv => jToTmpl kv.2)).map (.node (.dict (kvs.map (·.1))))
+  | .bool _ => none
+
+partial def tmplToJson : Tmpl → Option J
+  | .const .none => some .null
+  | .const (.int i) => some (.int i)
+  | .const (.str s) => some (.str s)
+  | .node .list xs => (xs.mapM tmplToJson).map .arr
+  | .node (.dict keys) xs => (xs.mapM tmplToJson).map (fun js => .obj (keys.zip js))
+  | _ => none
+
+def intSeqDec (g : String) : Option Tmpl :=
+  let parts : List String := (g.splitOn ",").filter (fun p => p ≠ "")
+  (parts.mapM (fun p => String.toInt? p)).map (fun is => Tmpl.node .list (is.map (fun i => Tmpl.const (.int i))))
+
+def intSeqEnc : Tmpl → Option DNA
+  | .node .list xs =>
+    (xs.mapM (fun (x : Tmpl) => match x with
+      | Tmpl.const (.int i) => some (toString i)
+      | _ => none)).map (fun ps => strDna (",".intercalate ps))
+  | _ => none
+
+def hookDec (cid : Nat) (d : DNA) : Option Tmpl :=
+  match genomeOf d with
+  | none => none
+  | some g =>
+    match cid with
+    | 0 => some (.const (.str g))                                 -- StrId
+    | 1 => intSeqDec g                                            -- IntSeq
+    | 2 => match J.parse g with                                   -- Evolvable: from_json_str
+      | .ok j => if j.render == g then jToTmpl j else none         -- (J.parse ignores trailing text)
+      | .error _ => none
+    | 3 => some (.const (.str g))                                 -- BadEnc
+    | 4 => if g.startsWith "x" then none else some (.const (.str g))   -- Raises
+    | 5 => some (.const (.str g))                                 -- NoEncode
+    | 6 => some (.choice 9000 true 1 [.const (.int 1), .const (.int 2)] true false)  -- Impure
+    | _ => none
+
+def hookEnc (cid : Nat) (v : Tmpl) : Option DNA :=
+  match cid with
+  | 0 => match v with | .const (.str g) => some (strDna g) | _ => none
+  | 1 => intSeqEnc v
+  | 2 => (tmplToJson v).map (fun j => strDna j.render)            -- to_json_str
+  | 3 => match v with | .const (.str g) => some (strDna (g ++ "!")) | _ => none
+  | 4 => match v with | .const (.str g) => some (strDna g) | _ => none
+  | 5 => none
+  | 6 => some (strDna "a")
+  | _ => none
+
+def mkCfg (sel : Nat → Bool) : Cfg := ⟨sel, hookDec, hookEnc, fun _ _ => true⟩
 
 def resT : Except Err Tmpl → J
   | .ok v => .arr [.str "ok", tmplToJ v]
@@ -92,7 +162,7 @@ def bad (msg : String) : J := .obj [("bad_request", .str msg)]
 
 /-- The partially decoded value used as a template for the rest (no filter). -/
 def stage2 (limit : Nat) (v : Tmpl) : J :=
-  let all : Nat → Bool := fun _ => true
+  let all : Cfg := mkCfg (fun _ => true)
   let spec := dnaSpec all v
   let size := sizeG spec
   let decs := match size with
@@ -101,23 +171,23 @@ def stage2 (limit : Nat) (v : Tmpl) : J :=
   .obj [("spec", specToJ spec), ("size", match size with | some n => .int n | none => .null),
         ("decs", .arr decs)]
 
-def perDna (W : Nat → Bool) (filtered : Bool) (limit : Nat) (t : Tmpl) (d : DNA) : J :=
+def perDna (W : Cfg) (filtered : Bool) (limit : Nat) (t : Tmpl) (d : DNA) : J :=
   let dec := decode W t d
   .obj ((if filtered then [("stage2", match dec with
           | .ok v => stage2 limit v
           | .error _ => .null)] else []) ++ [("dna", dnaToJ d),
-        ("valid", .bool (validG (dnaSpec W t) d)),
-        ("strict", .bool (validG (dnaSpec W t) d)),
+        ("valid", .bool (validG (fun _ _ => true) (dnaSpec W t) d)),
+        ("strict", .bool (validG (fun _ _ => true) (dnaSpec W t) d)),
         ("dec", resT dec),
         ("enc", match dec with
           | .ok v => resD (encode W t v)
           | .error _ => .null)])
 
-def perValue (W : Nat → Bool) (t : Tmpl) (v : Tmpl) : J :=
+def perValue (W : Cfg) (t : Tmpl) (v : Tmpl) : J :=
   let enc := encode W t v
   .obj [("enc", resD enc),
         ("valid", match enc with
-          | .ok d => .bool (validG (dnaSpec W t) d)
+          | .ok d => .bool (validG (fun _ _ => true) (dnaSpec W t) d)
           | .error _ => .null),
         ("redec", match enc with
           | .ok d => resT (decode W t d)
@@ -127,9 +197,9 @@ def handle (j : J) : J :=
   match (j.get? "tmpl").bind tmplOfJ with
   | none => bad "tmpl"
   | some t =>
-    let W : Nat → Bool := match j.get? "where" with
+    let W : Cfg := mkCfg (match j.get? "where" with
       | some (.arr xs) => fun tag => xs.any (fun x => x == J.int tag)
-      | _ => fun _ => true
+      | _ => fun _ => true)
     let filtered : Bool := match j.get? "where" with
       | some (.arr _) => true
       | _ => false
@@ -156,16 +226,24 @@ def handle (j : J) : J :=
           | none => .null)
         | _ => .null
       | _ => []
+    let trace : List (String × J) := match j.get? "trace", (j.get? "trace_dna").bind dnaOfJ with
+      | some (.arr ps), some td =>
+        (match ps.mapM tmplOfJ with
+         | some prims =>
+           let tl := Tmpl.node .list prims
+           [("trace", .obj [("spec", specToJ (dnaSpec W tl)), ("dec", resT (decode W tl td))])]
+         | none => [])
+      | _, _ => []
     match dnas, values with
     | some ds, some vs =>
-      .obj [("slots", .arr slots),
+      .obj (trace ++ [("slots", .arr slots),
             ("spec", specToJ spec),
             ("size", match size with | some n => .int n | none => .null),
             ("count", .int (specT W t).length),
             ("head_distinct", .bool (headDistinct W t)),
             ("wf", .bool (wfT t)),
             ("dnas", .arr (ds.map (perDna W filtered limit t))),
-            ("values", .arr (vs.map (perValue W t)))]
+            ("values", .arr (vs.map (perValue W t)))])
     | _, _ => bad "dnas/values"
 
 def main : IO Unit := driverLoop handle
